@@ -14,6 +14,7 @@ func init() {
 	scans["link-field-writers"] = scanLinkFieldWriters
 	scans["write-results-unused"] = scanWriteResultsUnused
 	scans["convert-shape"] = scanConvertShape
+	scans["sort-by-less"] = scanSortByLess
 }
 
 func scanObl(name string, ok bool, why string) *Obl {
@@ -289,4 +290,48 @@ func isParamLoad(v ssa.Value, name string) bool {
 		}
 	}
 	return false
+}
+
+
+// scanSortByLess: PrioritizedSlice.Sort is exactly sort.Slice(s, <its closure>); together with the
+// proved contract of that closure (i before j iff Priority_i < Priority_j) and the library contract of
+// sort.Slice this gives: Sort leaves s an ascending-by-Priority permutation.
+func scanSortByLess(P *Program) []*Obl {
+	var fn *ssa.Function
+	for _, f := range P.allFuncs {
+		if fnDisplayName(f) == "util.PrioritizedSlice.Sort" {
+			fn = f
+		}
+	}
+	if fn == nil {
+		return []*Obl{scanObl("sort-by-less", false, "util.PrioritizedSlice.Sort not found")}
+	}
+	var calls []*ssa.Call
+	for _, b := range fn.Blocks {
+		for _, in := range b.Instrs {
+			if c, ok := in.(*ssa.Call); ok {
+				if _, isB := c.Common().Value.(*ssa.Builtin); !isB {
+					calls = append(calls, c)
+				}
+			}
+		}
+	}
+	if len(calls) != 1 {
+		return []*Obl{scanObl("sort-by-less", false, "Sort does not consist of a single call")}
+	}
+	cc := calls[0].Common()
+	callee, _ := cc.Value.(*ssa.Function)
+	if callee == nil || callee.Pkg == nil || callee.Pkg.Pkg.Path() != "sort" || callee.Name() != "Slice" {
+		return []*Obl{scanObl("sort-by-less", false, "Sort does not call sort.Slice")}
+	}
+	ok := len(cc.Args) == 2
+	if ok {
+		if mc, isMC := cc.Args[1].(*ssa.MakeClosure); !isMC || mc.Fn.(*ssa.Function).Parent() != fn {
+			ok = false
+		}
+	}
+	if !ok {
+		return []*Obl{scanObl("sort-by-less", false, "sort.Slice is not called with Sort's own comparison closure")}
+	}
+	return []*Obl{scanObl("sort-by-less (Sort = sort.Slice(s, Sort$1))", true, "")}
 }
